@@ -1290,7 +1290,9 @@ def install_ckpt(mon):
 
     def compare(sampler, where):
         V = mon.violation
-        recs = last_records(2)
+        # after write faults (C11) the restored state may be any of the last
+        # few recorded checkpoints (each fault tears at most one write)
+        recs = last_records(6 if mon.job.get("ckpt_allow_previous") else 2)
         mon.count("ckpt.resume_checks")
         if not recs:
             info["resume_without_record"] = True
